@@ -257,6 +257,9 @@ func genText(c *RunCtx, prop string) []*Batch {
 			// (fast operators when that optimisation is on), literals, or further ifs
 			t = ifChain(r, 1+r.Intn(3))
 		}
+		if prop == "C13" && k == 0 {
+			rawDumpRoundTrip(c)
+		}
 		if prop == "C13" && k%30 == 3 {
 			// nested same-kind groups that flatten past the operand limit: rejected, or a Dump that compiles again
 			t = wideNested(r)
@@ -367,6 +370,20 @@ func genText(c *RunCtx, prop string) []*Batch {
 					}
 				}
 			}
+			// a directive before the first token is honoured whatever white space stands in front of it (blanks, tabs, line
+			// breaks, a bare carriage return, Unicode spaces): a constant sub-expression shows whether folding was switched
+			if k%4 == 0 {
+				body := "(c_id (+ 1 (* 2 3)))"
+				ref, errR, _ := compileSafe(eval.CopyConfig(tcP.conf), ";;;; optimize: true\n"+body)
+				for _, lead := range []string{" ", "\t", "  \n ", "\r", "\u00a0", "\u3000 ", "\n\n\t"} {
+					e1, err1, pan1 := compileSafe(eval.CopyConfig(tcP.conf), lead+";;;; optimize: true\n"+body)
+					if pan1 != nil || (errR == nil) != (err1 == nil) || (errR == nil && eval.Dump(ref) != eval.Dump(e1)) {
+						c.Direct = append(c.Direct, DirectViolation{What: "white space in front of a leading ;;;; directive changes the compiled program", Sig: "c14-indented-directive",
+							Sample: map[string]interface{}{"lead": fmt.Sprintf("%q", lead), "source": body}})
+						break
+					}
+				}
+			}
 			// the formatter, once and twice, also on a source with comments
 			withCmt := ";;;; reordering:false\n" + strings.Replace(src, " ", " ; c1 (x\n ", 1)
 			tcInf := textConf{conf: eval.CopyConfig(tcP.conf), coq: tcP.coq, infix: true}
@@ -392,6 +409,9 @@ func genText(c *RunCtx, prop string) []*Batch {
 				}
 			}
 		case "C15":
+			if k == 0 {
+				infixAliasCheck(c) // conventionally written infix expressions EVALUATE like their prefix forms (repeated leaves, every spelling)
+			}
 			tcI := textConf{conf: eval.CopyConfig(tcP.conf), coq: tcP.coq, infix: true}
 			tcI.conf.CompileOptions[eval.InfixNotation] = true
 			ti := infixTree(r, 1+r.Intn(3))
@@ -647,4 +667,50 @@ func ifChain(r *Rand, d int) *GT {
 	}
 	cond := gop(pick(r, []string{">", "<", "=", "!=", ">=", "<="}), iv(), iv())
 	return gif(cond, branch(), branch())
+}
+
+// rawDumpRoundTrip: source texts written by hand with lexemes outside the harness's own renderings (other quote
+// characters, quotes inside words, escapes): whatever of them the lexer ACCEPTS must survive the Dump round trip like
+// everything else - the dumped text compiles, gives the same result on every binding tried, and dumps to itself.
+func rawDumpRoundTrip(c *RunCtx) {
+	srcs := []string{
+		`(eq s0 'a" "b')`, `(in s0 ('a" "b'))`, `(in s0 ('a" "b' "c"))`, `(eq s0 'say "hi" twice')`, `(if (eq s0 'a" "b') 1 2)`,
+		"(eq s0 `a\" \"b`)", `(eq s0 'plain')`, `(in s0 ('x' 'y'))`, `(eq s0 "a\"b")`, `(eq s0 "tab\tq")`, `(in s0 ("a""b"))`, `(eq s0 “curly”)`,
+	}
+	binds := []map[string]interface{}{{"s0": "a"}, {"s0": `a" "b`}, {"s0": "b"}, {"s0": "plain"}, {"s0": "x"}}
+	for _, src := range srcs {
+		for _, opt := range []bool{false, true} {
+			conf := eval.NewConfig(eval.RegVarAndOp(map[string]interface{}{"s0": ""}), eval.Optimizations(opt))
+			e, err, pan := compileSafe(conf, src)
+			c.ExploreEvals++
+			if pan != nil {
+				c.Direct = append(c.Direct, DirectViolation{What: fmt.Sprintf("Compile panicked: %v", pan), Sig: "c13-raw-panic", Sample: src})
+				continue
+			}
+			if err != nil || e == nil {
+				continue // the lexer rejects this spelling: nothing to round-trip
+			}
+			d := eval.Dump(e)
+			plain := eval.NewConfig(eval.RegVarAndOp(map[string]interface{}{"s0": ""}), eval.Optimizations(false))
+			e2, err2, pan2 := compileSafe(plain, d)
+			if err2 != nil || pan2 != nil || e2 == nil {
+				c.Direct = append(c.Direct, DirectViolation{What: fmt.Sprintf("the Dump of a program that compiled does not compile: %v %v", err2, pan2), Sig: "c13-raw-recompile",
+					Sample: map[string]interface{}{"source": src, "dump": d}})
+				continue
+			}
+			if d2 := eval.Dump(e2); d2 != d {
+				c.Direct = append(c.Direct, DirectViolation{What: "dumping the recompiled program does not reproduce the text", Sig: "c13-raw-second-dump", Sample: map[string]interface{}{"source": src, "dump": d, "second": d2}})
+			}
+			for _, bd := range binds {
+				v1, e1 := e.Eval(eval.NewCtxFromVars(conf, bd))
+				v2, er2 := e2.Eval(eval.NewCtxFromVars(plain, bd))
+				if e1 == nil && er2 == nil && !valEq(v1, v2) {
+					c.Direct = append(c.Direct, DirectViolation{What: fmt.Sprintf("the recompiled Dump returns %v where the original returns %v", v2, v1), Sig: "c13-raw-result",
+						Sample: map[string]interface{}{"source": src, "dump": d, "binding": fmt.Sprint(bd)}})
+					break
+				}
+			}
+		}
+	}
+	c.ExploreHist["raw-sources"] += len(srcs)
 }
